@@ -1,4 +1,5 @@
 from inspect import Signature
+from types import FunctionType
 from typing import Type, Generic, TypeVar, TYPE_CHECKING, Union, overload
 
 from . import _pool
@@ -63,6 +64,12 @@ class Partial(Generic[C_co]):
             if not self.leaf:
                 args = None, *args
             Signature.from_callable(self.ctor).bind_partial(*args, **kwargs)
+            # A class hands the same arguments to ``__new__`` and to ``__init__``. If
+            # ``__new__`` accepts anything - as the one installed by the ``service``
+            # decorator does - only ``__init__`` tells what can never bind.
+            init = getattr(self.ctor, "__init__", None)
+            if isinstance(self.ctor, type) and isinstance(init, FunctionType):
+                Signature.from_callable(init).bind_partial(None, *args, **kwargs)
         except TypeError as err:
             message = err.args[0]
             raise TypeError(
